@@ -1420,7 +1420,9 @@ class ProgramData:
                         set_to = True
                         flag_name = option_value
                     else:
-                        flag_name, set_to = option_value.split("=")
+                        flag_name, set_to = option_value.split("=", 1)
+                        if set_to not in ["yes", "on", "no", "off"]:
+                            raise RuntimeError("Invalid value for flag " + flag_name + ": " + set_to)
                         set_to = set_to in ["yes", "on"]
                     option_value = flag_name
                     flag_name = flag_name.upper().replace("-", "_")
